@@ -58,7 +58,10 @@ def case_st(draw):
             # atoms of different masses (the adapted delta is a step length before any mass scaling)
             "masses": [draw(fl(1, 200)) for _ in range(4)],
             # end-to-end forces scheme: committee members that disagree on the sign of the force (coefficient s/s = 1)
-            "mixed_sign": draw(st.integers(0, 3)) == 0}
+            "mixed_sign": draw(st.integers(0, 3)) == 0,
+            # end-to-end: the calculator publishes its committee under other result names (the class exposes the names as
+            # attributes for that purpose), and/or as a plain list of member arrays
+            "custom_keys": draw(st.booleans()), "as_list": draw(st.booleans())}
 
 
 def variance(case, r):
@@ -108,17 +111,22 @@ def delta_for(case, mc, atoms, v):
                 mc.reference_variance = case["ref"]
             mc.update_delta()
         else:
+            ek, fk = "energies", "forces_comm"
+            if case.get("custom_keys"):
+                ek, fk = "my_energy_committee", "my_forces_committee"
+                mc.energies_variance_keyword, mc.forces_variance_keyword = ek, fk
+            wrap = (lambda a: [x for x in a]) if case.get("as_list") else (lambda a: a)
             if case["scheme"] == "energy":
                 t = v * n
                 e0 = -3.0
-                atoms.calc = types.SimpleNamespace(results={"energies": np.array([e0 - t, e0 + t])})
+                atoms.calc = types.SimpleNamespace(results={ek: wrap(np.array([e0 - t, e0 + t]))})
             else:
                 s = min(v, 0.999)  # two-member symmetric committee reaches coefficients below 1
                 if case.get("mixed_sign") and v == 1.0:
                     s = 3.0  # members mu*(1+s), mu*(1-s) of opposite sign: std = s|mu|, mean|F| = s|mu|, coefficient exactly 1
                 mu = case["mu"] * case["sign"]
                 base = np.full((n, 3), mu)
-                atoms.calc = types.SimpleNamespace(results={"forces_comm": np.array([base * (1 + s), base * (1 - s)])})
+                atoms.calc = types.SimpleNamespace(results={fk: wrap(np.array([base * (1 + s), base * (1 - s)]))})
             mc.update_delta()
     return np.asarray(mc.delta, dtype=float)
 
